@@ -155,6 +155,13 @@ func (r *Run) EvalN(n int, key string) {
 	r.mu.Unlock()
 }
 
+// Matched returns how often a known finding has been matched so far in this run.
+func (r *Run) Matched(id string) int {
+	r.mu.Lock()
+	defer r.mu.Unlock()
+	return r.matched[id]
+}
+
 // NeedSample reports whether the evidence still has room for sample cases.
 func (r *Run) NeedSample() bool {
 	r.mu.Lock()
@@ -319,6 +326,10 @@ type evidence struct {
 // Finish writes the evidence file, prints the verdict lines and exits.
 func (r *Run) Finish() {
 	r.mu.Lock()
+	if len(r.samples) == 0 && len(r.viol) > 0 {
+		// nothing passed that could be sampled: show the first refuted case instead
+		r.samples = []any{map[string]any{"violating_case": r.viol[0].Detail, "clause": r.viol[0].Clause}}
+	}
 	if r.samples == nil {
 		r.samples = []any{}
 	}
